@@ -587,6 +587,7 @@ def run(ctx, deep=False):
     full_stack(ctx, thorough)
     full_stack_nested_loss(ctx, thorough)
     full_stack_pending_commands(ctx, thorough)
+    full_stack_two_outages(ctx, thorough)
     scripts += [(sc["gen"], "c14." + sc["family"], sc["ops"]) for sc in own]
     c09.tie(ctx, scripts, "C14")
 
@@ -649,6 +650,33 @@ def full_stack_pending_commands(ctx, thorough):
                               "300 ticks after the reconnection the client shows error_info = %s; status requests seen by the console after the reconnection: %s" % (
                                   gen, n, text.decode(), got, [r[0] for r in refresh]), kind="history", level="full-stack-pending", gen=gen, pending=n,
                               implementation_output=str(got), spec_verdict=str((5, text)))
+
+
+def full_stack_two_outages(ctx, thorough):
+    """two separate events in one session: first the connection is lost and the one that replaces it is half-open (the refresh request's
+    write fails, the next attempt succeeds at once); much later the connection is lost again while the console refuses one or two
+    attempts and changes its state.  After that second reconnection the client converges as always."""
+    import fullstack
+    text = b"ER05 compressor"
+    for gen in (4, 5):
+        for refused_for in (3, 20, 40):
+            for first in ("eof", "reset"):
+                sc = dict(inst=fullstack.INST, horizon=700, ac_state=[dict(id=0, power=1, mode=4, fan=0, setpoint=22, temp=235, err=0)], err_text={0: b""},
+                          changes=[(310, 0, 5, text)], faults=[(100, "failnext"), (100, first), (300, "refuse"), (305, "eof"), (305 + refused_for, "accept")])
+                b = fullstack.run(gen, sc)
+                ctx.case(("full-stack-two-outages", gen, refused_for, first))
+                if b.get("init_result") is not True:
+                    ctx.tie_broken("C14:console-script", "the full-stack console no longer initialises the AirTouch %d object" % gen)
+                    continue
+                got = _error_info_of(b["view"])
+                opened = [e[0] for e in b["event_log"] if e[1] == "opened"]
+                ctx.count("full-stack:two-outages:%s" % ("ok" if got == (5, text) else "differs"))
+                if got != (5, text):
+                    ctx.violation("C14:%d:full-stack:two-outages" % gen, "AirTouch %d over the real socket: connection lost at tick 100 (%s), its replacement half-open (first write fails), "
+                                  "the next one fine; lost again at 305 with the console refusing for %d ticks and its AC error becoming 5 '%s' at 310. At tick 700 the client shows "
+                                  "error_info = %s; connections were opened at ticks %s" % (gen, first, refused_for, text.decode(), got, opened), kind="history",
+                                  level="full-stack-pending", gen=gen, implementation_output=str(got), spec_verdict=str((5, text)))
+                    return
 
 
 def _nested_scenario(delay, lat):
